@@ -273,6 +273,11 @@ func runC05(c *Ctx) error {
 			}
 		}
 	}
+	if c.Replay == "" {
+		if err := c05DeepReorg(c); err != nil {
+			return err
+		}
+	}
 	c.R.ModelOps = l.Ops
 	return nil
 }
